@@ -28,17 +28,30 @@ type Fn struct {
 
 // Step is one step of an evaluation history.
 type Step struct {
-	Op       string `json:"op"`            // run | redef
+	Op       string `json:"op"`            // run | redef | remac (Fn = macro index)
 	Obj      int    `json:"obj,omitempty"` // run: -1 = fresh code object of the main form, else re-evaluate object #obj
 	Fn       int    `json:"fn,omitempty"`  // redef: function index
 	Ver      int    `json:"ver,omitempty"` // redef: version index
 	Compiled bool   `json:"compiled,omitempty"`
 }
 
+// Mac is one macro of a program: (defmacro @macK (params [&rest r]) `template).
+// In template texts ,@ua is the comma form of parameter @ua and ,%@ubody the
+// comma-at form (the % becomes @ when the text is instantiated).
+type Mac struct {
+	Kind    string   `json:"kind"` // expr | body | quote
+	Ret     string   `json:"ret"`
+	Params  []string `json:"params"`
+	Rest    string   `json:"rest,omitempty"`
+	BodyVar string   `json:"bodyvar,omitempty"` // kind body: the variable the template binds for the body forms
+	Vers    []string `json:"vers"`              // template of each version (version 0 is the original)
+}
+
 // Case is one generated multi-definition program with an evaluation history.
 type Case struct {
 	Kind    string  `json:"kind"` // args | noargs | probe | reeval | reeval-inventory
 	Fns     []Fn    `json:"fns"`
+	Macs    []Mac   `json:"macs,omitempty"`
 	Globals []int64 `json:"globals"` // initial values of *@g0*, *@g1*, ...
 	Main    string  `json:"main"`
 	K       int     `json:"k"`              // evaluations of the same code object
@@ -63,6 +76,8 @@ type gen struct {
 	nv     int
 	noargs bool
 	rich   bool // use the wider set of special forms
+	macs   []Mac
+	maxMac int // macros with an index below this may be used in the code being generated
 }
 
 type scope struct {
@@ -171,6 +186,11 @@ func (g *gen) intExpr(sc scope, d int) string {
 		return g.leaf(sc)
 	}
 	for {
+		if 0 < g.maxMac && g.r.IntN(9) == 0 {
+			if u := g.macroUse(sc, d, "int"); u != "" {
+				return u
+			}
+		}
 		switch g.r.IntN(21) {
 		case 0, 1, 2:
 			return g.leaf(sc)
@@ -259,6 +279,11 @@ func (g *gen) listExpr(sc scope, d int) string {
 		return fmt.Sprintf("(list %s)", g.leaf(sc))
 	}
 	for {
+		if 0 < g.maxMac && g.r.IntN(9) == 0 {
+			if u := g.macroUse(sc, d, "list"); u != "" {
+				return u
+			}
+		}
 		switch g.r.IntN(16) {
 		case 0, 1, 2, 3, 4:
 			n := g.r.IntN(4)
@@ -363,6 +388,60 @@ func (g *gen) stmt(sc scope, d int) string {
 			return g.anyExpr(sc, d)
 		}
 	}
+}
+
+// macroUse renders a use of one of the usable macros with result type ret.
+func (g *gen) macroUse(sc scope, d int, ret string) string {
+	var cand []int
+	for k := 0; k < g.maxMac; k++ {
+		if g.macs[k].Ret == ret {
+			cand = append(cand, k)
+		}
+	}
+	if len(cand) == 0 {
+		return ""
+	}
+	k := cand[g.r.IntN(len(cand))]
+	m := g.macs[k]
+	switch m.Kind {
+	case "quote":
+		arg := []string{"7", "(+ 1 (* 2 3))", "(- 9 4)", "(* (+ 1 1) 3)"}[g.r.IntN(4)]
+		return fmt.Sprintf("(@mac%d %s)", k, arg)
+	case "body":
+		inner := sc.with(m.BodyVar, false)
+		return fmt.Sprintf("(@mac%d %s %s %s)", k, g.intExpr(sc, d-1), g.stmt(inner, d-1), g.intExpr(inner, d-1))
+	}
+	var args []string
+	for range m.Params {
+		args = append(args, g.intExpr(sc, d-1))
+	}
+	return fmt.Sprintf("(@mac%d%s)", k, sp(args))
+}
+
+// template generates one backquote template for macro k. Every template
+// binds a variable inside the expansion and holds comma-free sub-lists with
+// nested calls that depend on that binding.
+func (g *gen) template(k int) string {
+	m := g.macs[k]
+	saved := g.maxMac
+	g.maxMac = k // a template may use the macros before it
+	defer func() { g.maxMac = saved }()
+	v := g.fresh()
+	switch m.Kind {
+	case "quote":
+		return fmt.Sprintf("`(let ((%s ,@ua)) (list (quote ,@ua) %s (list (+ %s 1) (quote (k 1)))))", v, v, v)
+	case "body":
+		g.tr++
+		return fmt.Sprintf("`(let ((%s ,@ua)) (vtr %d (list (+ %s 1) (* %s 2))) ,%%@ubody)", m.BodyVar, g.tr, m.BodyVar, m.BodyVar)
+	}
+	sc := scope{ints: []string{v, v}}
+	for _, p := range m.Params {
+		sc.ints = append(sc.ints, ","+p)
+	}
+	if m.Ret == "int" {
+		return fmt.Sprintf("`(let ((%s ,@ua)) (+ %s (* %s %d) %s))", v, v, v, 2+g.r.IntN(3), g.intExpr(sc, 2))
+	}
+	return fmt.Sprintf("`(let ((%s ,@ua)) (list %s (list (+ %s 1) (quote (1 2))) %s))", v, v, v, g.anyExpr(sc, 2))
 }
 
 var paramNames = [][]string{{"@a", "@b", "@c"}, {"@x", "@y", "@z"}, {"@p", "@q", "@r"}, {"@i", "@j", "@k"}}
@@ -562,6 +641,31 @@ func genCase(r *rand.Rand, noargs bool, multiRedef bool) Case {
 	for k := 0; k < g.nglob; k++ {
 		c.Globals = append(c.Globals, int64(r.IntN(10)))
 	}
+	// macros: two programs in five have 1-2
+	if r.IntN(5) < 2 {
+		nm := 1 + r.IntN(2)
+		for k := 0; k < nm; k++ {
+			m := Mac{Kind: "expr", Ret: "int", Params: []string{"@ua"}}
+			switch r.IntN(6) {
+			case 0:
+				m.Kind, m.Ret = "quote", "list"
+			case 1:
+				m.Kind, m.Rest, m.BodyVar = "body", "@ubody", fmt.Sprintf("@uv%d", k)
+			default:
+				if r.IntN(3) == 0 {
+					m.Ret = "list"
+				}
+				if r.IntN(3) != 0 {
+					m.Params = append(m.Params, "@ub")
+				}
+			}
+			g.macs = append(g.macs, m)
+		}
+	}
+	nverMac := make([]int, len(g.macs))
+	for k := range nverMac {
+		nverMac[k] = 1
+	}
 	// history first (it decides how many versions each function needs)
 	nver := make([]int, n)
 	for i := range nver {
@@ -579,6 +683,15 @@ func genCase(r *rand.Rand, noargs bool, multiRedef bool) Case {
 	nred := 1 + r.IntN(3)
 	last := -1
 	for k := 0; k < nred; k++ {
+		if 0 < len(g.macs) && r.IntN(3) == 0 {
+			// redefine a macro
+			mk := r.IntN(len(g.macs))
+			c.Hist = append(c.Hist, Step{Op: "remac", Fn: mk, Ver: nverMac[mk], Compiled: r.IntN(2) == 0})
+			nverMac[mk]++
+			run(r.IntN(nobj))
+			run(-1)
+			continue
+		}
 		f := r.IntN(n)
 		if multiRedef {
 			if 0 <= last && r.IntN(3) != 0 {
@@ -612,6 +725,13 @@ func genCase(r *rand.Rand, noargs bool, multiRedef bool) Case {
 		run(o)
 	}
 	run(-1)
+	// macro templates
+	for k := range g.macs {
+		for v := 0; v < nverMac[k]; v++ {
+			g.macs[k].Vers = append(g.macs[k].Vers, g.template(k))
+		}
+	}
+	g.maxMac = len(g.macs)
 	// functions
 	for i := range g.sigs {
 		fn := Fn{Ret: g.sigs[i].ret, Rec: g.sigs[i].rec}
@@ -638,7 +758,23 @@ func genCase(r *rand.Rand, noargs bool, multiRedef bool) Case {
 	}
 	r.Shuffle(len(el), func(a, b int) { el[a], el[b] = el[b], el[a] })
 	c.Main = fmt.Sprintf("(list%s)", sp(el))
+	if 0 < len(g.macs) && !strings.Contains(c.Main, "(@mac") && !bodiesUse(c.Fns) {
+		// make sure a macro is used at least at one site
+		if u := g.macroUse(msc, 2, g.macs[0].Ret); u != "" {
+			c.Main = fmt.Sprintf("(list %s %s)", u, c.Main)
+		}
+	}
+	c.Macs = g.macs
 	c.K = 2 + r.IntN(4)
 	c.Long = r.IntN(12) == 0
 	return c
+}
+
+func bodiesUse(fns []Fn) bool {
+	for _, fn := range fns {
+		if strings.Contains(fn.Vers[0].Body, "(@mac") {
+			return true
+		}
+	}
+	return false
 }
